@@ -973,9 +973,12 @@ impl Session {
         }
 
         // Increment packet counter
+        // The authentication preamble is packet 0, so session packets are numbered from 1
+        // (fetch_add returns the previous value).
         let pkt = self
             .pkt_counter
-            .fetch_add(1, std::sync::atomic::Ordering::SeqCst);
+            .fetch_add(1, std::sync::atomic::Ordering::SeqCst)
+            + 1;
         #[cfg(anytls_verif)]
         crate::verif::point("wp.pkt").await;
         let padding_factory = {
